@@ -19,7 +19,7 @@ func init() {
 		Level: "model_checking",
 		Rule: "every condition value of the pool (each built-in type at zero and non-zero, prototypes, bear children, typed descendants, objects with user-defined B) x 10 conditional constructs with tracing operands, " +
 			"and all ordered pairs of pool values for && and ||; expected behaviour derived from the single rule `c.B is the true object` evaluated in the same run, with B itself pinned for the documented zero values (falsy) and for 23 built-in non-zero values (truthy; incl. non-empty objects/maps/arrays without a public identifier-named key or with only falsy elements); operand identity by Go pointer; " +
-			"non-trivial = every (value, construct) and (value, value, operator) instance; distinct = distinct source; round 7: The pool pins negative zeros of five origins as zero values and holds objects whose B yields a non-boolean; constructs also include `!!c`, `!(!c)`, `c.!` and `x if !!c else y`.",
+			"non-trivial = every (value, construct) and (value, value, operator) instance; distinct = distinct source; round 7: The pool pins negative zeros of five origins as zero values and holds objects whose B yields a non-boolean; constructs also include `!!c`, `!(!c)`, `c.!` and `x if !!c else y`.; round 8: One conditional written once inside a function is evaluated three times with conditions of alternating truth (18 constructs x 61 value triples); guards are looked at once and where the statement stands (traced guards, guard variables changed afterwards); function descendants are truthy.",
 		Assumptions: []string{
 			"a B that fails (Func.B, BaseObj) counts as not-true (the rule says: true exactly when B yields true)",
 			"BaseObj has neither B nor ! and is not used with the ! construct; user-defined B that raises is not generated",
